@@ -10,7 +10,7 @@ from ..spaces import all_res, kinds_rotating, prog_of, shard_iter, single_select
 from .c03 import up_closed_sets
 
 ID = "C09"
-BUDGET = {"quick": 100, "thorough": 900}
+BUDGET = {"quick": 240, "thorough": 900}
 MONITORS = [mon_c09]
 
 
